@@ -142,6 +142,12 @@ def cases(rng, tier):
             ops.append({"t": "items"})
         if scalar:
             ops = [o for o in ops if o["t"] != "acc_like"] or [{"t": "items"}]
+            if isinstance(vals, int) and rng.random() < 0.4:
+                # a table born with ONE shared integer value, filled with a fraction while it still holds one shared value: the
+                # fraction is what every key has from then on, also after a later assignment to some keys only
+                ops = [{"t": "fill", "x": rng.choice([2.5, 0.75, 7.25])}, {"t": "getvec", "ks": [rng.choice(keys) for _ in range(rng.randint(1, 3))]},
+                       {"t": "get1", "k": rng.choice(keys)}, {"t": "setscalar", "ks": [rng.choice(keys)], "x": rng.randint(1, 9)}] + ops + [{"t": "items"}]
+                ops = [o for o in ops if o["t"] not in ("zeros_like", "ones_like", "like_set", "iadd_table", "add_self", "add_perm", "add_const", "eq_big")]
         qbuf = rng.random() < 0.35
         if qbuf and len(keys) >= 2:
             # ONE query buffer, refilled in place between consecutive vector operations of the same length (a batch buffer)
